@@ -51,10 +51,53 @@ def run(p: Project, tier: str) -> Result:
     ws = storewalk.walks(p, assume_inv=('I1',))
     for w in ws:
         check_store(p, w, r)
+        check_rejections(p, w, r)
         r.paths += w.npaths
     check_ownership(p, r)
     check_edges(p, r)
     return r
+
+
+# --------------------------------------------------------------------------------------------
+def check_rejections(p: Project, w, r: Result):
+    """O9: put(token, item) / get(token) may only fail for want of a valid reservation: every failing exit (exception, or a falsy result) lies on a
+    path on which the look-up of the token among the granted reservations of *that* kind failed, or on which that list is known to be empty.
+    A rejection decided by anything else (the other side's list, a stale flag) refuses a reservation that was granted."""
+    from ..tables import RG
+    r.rule('C01.O9', 'put / get reject only when the token is not a granted reservation of the right kind', 16)
+    for entry, L in (('put', RP), ('get', RG)):
+        fi = w.root_funcs.get(entry)
+        if fi is None:
+            continue
+        key = f'{w.store.label}.{entry}::rejects-only-without-reservation'
+        bad = None
+        n_fail = 0
+        for pa in w.roots[entry]:
+            evs = pa.events
+            ret = next((e.value for e in reversed(evs) if e.kind == 'return' and e.fi is fi), None)
+            failing = bool(pa.raises) or (pa.status == 'return' and ret is not None and ret[0] == 'const' and not ret[1]) or pa.status == 'normal'
+            if not failing or pa.status in ('loopcut', 'backedge'):
+                continue
+            if any(e.kind == 'raise' and e.exc not in ('RuntimeError', 'ValueError') for e in evs):
+                continue
+            n_fail += 1
+            justified = any(e.kind == 'lookup' and e.outcome == 'none' and e.srclist == L for e in evs)
+            justified = justified or any(e.kind == 'cond' and not e.d.get('synthetic') and e.polarity is False and e.d.get('node') is not None
+                                         and isinstance(e.node, ast.Compare) and isinstance(e.node.ops[0], ast.In) and self_attr(e.node.comparators[0]) == L for e in evs)
+            if not justified:
+                try:
+                    justified = lin.implies(events_atoms(evs), ('<=', lin.norm({L: 1})))
+                except Exception:
+                    justified = False
+            # a failure after the look-up succeeded is C01.O4's business (second capacity test, missing item)
+            justified = justified or any(e.kind == 'lookup' and e.outcome == 'found' and e.srclist == L for e in evs)
+            if not justified and bad is None:
+                bad = pa
+        if bad is not None:
+            r.fail('C01.O9', key, f'{entry}() can fail on a path that neither looked the token up in {L} nor knows {L} to be empty: a granted reservation is refused '
+                                  f'because of an unrelated condition', src(fi.module), fi.node.lineno, bad.describe())
+        else:
+            r.ok('C01.O9', key, f'{n_fail} failing path(s), each without a valid reservation', src(fi.module), fi.node.lineno)
 
 
 # --------------------------------------------------------------------------------------------
